@@ -94,7 +94,8 @@ Definition spec_ok (c : case) (o : out) : bool :=
 
 (** ** defect tag of the model's answer (0 = none)
     1: a span which starts one character late, after the # of a set / anonymous function, or the
-       map of a namespaced map, or a form rewritten inside an anonymous function (F-16g)
+       map of a namespaced map, or a form rewritten inside an anonymous function, or a symbol
+       which only the var macro can read (F-16g)
     2: IndexError from the syntax-quote expansion of a one-element (unquote) list (F-16h)
     4: one of the residual prefixes / unterminated strings answered with a plain syntax error (F-16b)
     8: a ReaderConditional object inside a form (F-16i) *)
@@ -118,7 +119,7 @@ Definition span_explained (s : list N) (sp : span) : bool :=
       match offset_of s l1 c1 with
       | Some o =>
           let before := rev (firstn o s) in
-          (match before with 35 :: _ => true | _ => false end)
+          (match before with 35 :: _ => true | 39 :: 35 :: _ => true | _ => false end)
           || ((match nth_error s o with Some 123 => true | _ => false end) && upto_hash (drop_ws_rev before) 0)
           || has_fn_before (firstn o s)
       | None => false
